@@ -1,13 +1,21 @@
 (* Properties_C08.v — C08: a file cut at any byte reads as an unmodified prefix of its objects.
-   Statements only.  Proved here is the SPECIFICATION side for every cut position: a finished file is
-   header ++ C1 ++ ... ++ Cn (C04_file_is_header_then_containers); a cut at byte k keeps exactly
-   whole(k) complete containers followed by a proper prefix of the next one, and whole is monotone
-   in k; the objects wholly inside complete containers are counted the same way one level down.
-   PARTIAL: that read_session / the real reader deliver exactly those objects (and that the
-   in-memory stream's state machine does not deliver an object cut inside its last member) is
-   decided by differential execution on every cut offset, not by a theorem. *)
+   Statements only.
+   Specification side, for every cut position: a finished file is header ++ C1 ++ ... ++ Cn
+   (C04_file_is_header_then_containers); a cut at byte k keeps exactly whole(k) complete containers followed by a proper
+   prefix of the next one, and whole is monotone in k (C08_cut_structure, C08_monotone, C08_complete_file).
+   Reader side, at the level of the uncompressed stream (C08_stream_prefix, Inst/PrefixEq.v + Lib/PrefixRT.v): the parser
+   stage of the file model (FileModel.obj_loop over the read programs regenerated from /repo) on the stream of ANY list of
+   well-formed objects cut at ANY byte inside ANY of them delivers the objects before the cut as written, possibly the
+   object the cut falls into (only when every read of its reader was served — the cut fell into bytes the reader merely
+   skips), and nothing else.  Proof: a stream that has hit its end stays failed under every forward-seeking read program
+   (dead_stays); as long as the cut stream is good, the complete stream simulates it read by read (run_r_sim: same bytes,
+   same decoded state; a clamped forward seek leaves the cut stream at its end, where only zero-length reads survive).
+   PARTIAL: the inflating stage on a file cut inside a container (the cut container is dropped, C08_cut_structure says which
+   objects remain) and the real reader are tied by differential execution on every cut offset, not by a theorem. *)
 From Coq Require Import List ZArith Lia.
 From VB Require Import PrefixFacts.
+From VB Require Import Base IR Sem FileModel FileDefs StreamRT PrefixEq.
+From VB Require Import Classes Consts Common.
 Import ListNotations.
 
 Theorem C08_cut_structure : forall (bs : list (list Z)) k,
@@ -27,3 +35,18 @@ Print Assumptions C08_monotone.
 Theorem C08_complete_file : forall (bs : list (list Z)), whole (length (concat bs)) bs = length bs.
 Proof. exact whole_all. Qed.
 Print Assumptions C08_complete_file.
+
+(* the reader on a cut stream: pre = the objects before the cut, o = the object the cut falls into, part = what is left of its
+   bytes, lost = what is gone (at least one byte) *)
+Theorem C08_stream_prefix : forall pre o part lost, Forall wobj_ok pre -> wobj_ok o -> w_bytes o = part ++ lost -> lost <> [] ->
+  let U := concat (map w_bytes pre) ++ part in
+  exists ds,
+    fst (fst (obj_loop cs scan_p default_cap factory_table C_ohb fid_objectSize fid_objectType (2 * length U + 16) (mk_ustream U) [] 0%Z)) = ds /\
+    (Forall2 same_obj pre ds \/ Forall2 same_obj (pre ++ [o]) ds).
+Proof. exact stream_prefix. Qed.
+Print Assumptions C08_stream_prefix.
+
+(* non-vacuity: a CanMessage (a well-formed written object: StreamRT.ex_can_ok) followed by the first 0, 20 or 47 bytes of
+   another one — exactly one object is delivered *)
+Example C08_stream_prefix_example : prefix_example_b = true /\ match ex_obj "CanMessage" 1 48 48 with Some o => wobj_ok o | None => False end.
+Proof. split; [exact prefix_example|exact ex_can_ok]. Qed.
